@@ -33,6 +33,7 @@ Out(es, n) == es.outl[n]
 MkAdj(NN, pairs) == [p |-> pairs, w |-> [i \in DOMAIN pairs |-> 1], d |-> [i \in DOMAIN pairs |-> 1],
                      inl  |-> [n \in 1..NN |-> SelectSeq([i \in DOMAIN pairs |-> i], LAMBDA i : pairs[i][2] = n)],
                      outl |-> [n \in 1..NN |-> SelectSeq([i \in DOMAIN pairs |-> i], LAMBDA i : pairs[i][1] = n)]]
+MkAdjW(NN, pairs, wd) == [MkAdj(NN, pairs) EXCEPT !.w = [i \in DOMAIN pairs |-> wd[i][1]], !.d = [i \in DOMAIN pairs |-> wd[i][2]]]
 Visit(es, n) == In(es, n) \o Out(es, n)
 Other(es, e, n) == IF es.p[e][2] # n THEN es.p[e][2] ELSE es.p[e][1]
 Slack(es, e, r) == r[es.p[e][2]] - r[es.p[e][1]] - es.d[e]          \* es.d[e] = the edge's minimum length (Delta)
@@ -145,8 +146,8 @@ VBal(es, NN, n, r, lsize, lmax) ==
     IF n > NN THEN r
     ELSE IF Len(In(es, n)) # Len(Out(es, n)) THEN VBal(es, NN, n + 1, r, lsize, lmax)
     ELSE LET ins == In(es, n) outs == Out(es, n)
-             low == Max({0} \cup {r[es.p[ins[k]][1]] + 1 : k \in DOMAIN ins})
-             high == Min({lmax} \cup {r[es.p[outs[k]][2]] - 1 : k \in DOMAIN outs})
+             low == Max({0} \cup {r[es.p[ins[k]][1]] + es.d[ins[k]] : k \in DOMAIN ins})
+             high == Min({lmax} \cup {r[es.p[outs[k]][2]] - es.d[outs[k]] : k \in DOMAIN outs})
              \* newl: the least crowded layer of low..high, the first one among equals
              best[i \in low..(IF high >= low THEN high ELSE low)] ==
                  IF i = low THEN low ELSE IF lsize[i] < lsize[best[i - 1]] THEN i ELSE best[i - 1]
@@ -199,13 +200,14 @@ RunFrom(es, NN, st, maxiter, fuel) ==
     IF st.phase \in {"done", "panic_no_incident_edge"} \/ fuel = 0 THEN st
     ELSE RunFrom(es, NN, Step(es, NN, st, maxiter), maxiter, fuel - 1)
 RunNS(es, NN, maxiter) == RunFrom(es, NN, InitState(es, NN), maxiter, 400)
-\* the positioner's variant: horizontal balancing at the end
-RECURSIVE RunFromH(_, _, _, _, _)
-RunFromH(es, NN, st, maxiter, fuel) ==
-    IF st.phase \in {"done", "panic_no_incident_edge"} \/ fuel = 0 THEN st
-    ELSE IF st.phase = "balance" THEN HBalanceStep(es, NN, st)
-    ELSE RunFromH(es, NN, Step(es, NN, st, maxiter), maxiter, fuel - 1)
-RunNSH(es, NN, maxiter) == RunFromH(es, NN, InitState(es, NN), maxiter, 4000)
+\* the positioner's variant: horizontal balancing at the end.  RunToBalance stops on entering the balancing phase
+RECURSIVE RunToBalance(_, _, _, _, _)
+RunToBalance(es, NN, st, maxiter, fuel) ==
+    IF st.phase \in {"balance", "done", "panic_no_incident_edge"} \/ fuel = 0 THEN st
+    ELSE RunToBalance(es, NN, Step(es, NN, st, maxiter), maxiter, fuel - 1)
+RunNSH(es, NN, maxiter) ==
+    LET st == RunToBalance(es, NN, InitState(es, NN), maxiter, 600)
+    IN IF st.phase = "balance" THEN HBalanceStep(es, NN, st) ELSE st
 
 \* ---- what the mechanism must establish
 Feasible(es, r) == \A e \in E(es) : Slack(es, e, r) >= 0
